@@ -43,7 +43,8 @@ CONSTANTS
     MaxAtoms,    \* primitive conditions in the whole body
     MaxCondAtoms,\* primitive conditions in one condition (1 or 2)
     Bug,         \* "none"; other values switch a plausible bug on in the Impl model (sensitivity):
-                 \* any_matches, ver2 / ver3 (sys.version_info truncated to 2 / 3 elements), pyeq
+                 \* any_matches, ver2 / ver3 (sys.version_info truncated to 2 / 3 elements), pyeq,
+                 \* nogenvisit / noornull (the code before repo 2abb651 / fdb4789)
     Fixed        \* the repairs (see Repairs) that the code under test contains; {} on the current tree
 
 ToSet(s) == {s[i] : i \in 1..Len(s)}
@@ -345,11 +346,12 @@ RefObs(c, env) ==
 \*             does not discard the members those operands had set aside
 Repairs == {"carry", "exact", "keepany", "ell", "boolop"}
 \* repairs of the deviations in accepting / rejecting conditions (see StatusClass)
-\*   "genvisit" an expression that is no call / comparison / not / and / or is rejected
-\*              (ConditionEvaluator has no generic_visit: ast.NodeVisitor's returns None)
-\*   "ornull"   an `or` operand that is invalid makes the whole condition invalid instead of raising
 \*   "veri"     sys.version_info[i] <op> n is evaluated
-StatusRepairs == {"genvisit", "ornull", "veri"}
+\* (two more were found by the condition families and are repaired in the code: repo 2abb651
+\* ConditionEvaluator.generic_visit rejects an expression that is no call / comparison / not / and /
+\* or, repo fdb4789 an invalid operand makes a boolean condition invalid instead of raising; the
+\* old behaviour is kept as Bug = "nogenvisit" / "noornull" for the sensitivity configurations)
+StatusRepairs == {"veri"}
 NoFix == Fixed
 
 \* Signature.bind_arguments (signature.py:820-1051), restricted to two parameters: the position
@@ -470,10 +472,10 @@ ImplAtomNull(env, x, F) ==
                         \/ PyVerCompare(VerOperand(env), x) = "err"   \* data.impl raises (:496-501)
       [] x.k = "veri" -> "veri" \notin F                          \* node.left is a Subscript -> :515
       [] x.k = "platsw" -> TRUE                                   \* visit_Call: func is no Name (:347-348)
-      [] x.k = "bare" -> "genvisit" \in F
+      [] x.k = "bare" -> Bug # "nogenvisit"                       \* generic_visit -> return_invalid (:346-349)
       [] OTHER -> FALSE
-\* no visit_Name / visit_Constant / visit_Attribute: ast.NodeVisitor.generic_visit returns None
-ImplAtomCrash(x, F) == x.k = "bare" /\ "genvisit" \notin F
+\* (bug: no generic_visit -- ast.NodeVisitor's returns None for a Name / Constant / Attribute)
+ImplAtomCrash(x, F) == x.k = "bare" /\ Bug = "nogenvisit"
 
 RECURSIVE ImplCond(_, _, _, _, _), ImplBoolOp(_, _, _, _, _, _, _, _, _)
 ImplCond(c, env, vars, x, F) ==
@@ -497,8 +499,8 @@ ImplBoolOp(c, env, cs, i, isAnd, vars, narrowed, remaining, F) ==
                   ELSE [l |-> Unite(remaining), r |-> Some(narrowed)])
     ELSE LET res == ImplCond(c, env, vars, cs[i], F) IN
          IF IsCrash(res) THEN res                                                    \* result.condition of None (:530)
-         ELSE IF ~isAnd /\ IsNull(res) THEN                                          \* narrowed_varmap.update(None) (:554)
-            (IF "ornull" \in F THEN NullC ELSE CrashC)
+         ELSE IF ~isAnd /\ IsNull(res) THEN                 \* invalid operand: the condition is invalid (:536-538)
+            (IF Bug = "noornull" THEN CrashC ELSE NullC)    \* (bug: narrowed_varmap.update(None) raises)
          ELSE IF isAnd THEN
             IF ~res.l.some THEN                                                      \* :532-537
                 [l |-> None,
@@ -566,14 +568,14 @@ ImplDiag(c, env) == DiagOf(ImplErrSeq(c, env))
 
 \* Validation at the definition (name_check_visitor.py:2258-2274 -> Evaluator.validate): every
 \* condition and both blocks of every `if` are visited (visit_If / visit_BoolOp in validation_mode),
-\* every InvalidEvaluation becomes a bad_evaluator diagnostic.  `not <bare>` raises there
-\* (visit_UnaryOp :461-462: None.reverse()).
+\* every InvalidEvaluation becomes a bad_evaluator diagnostic.  (Without generic_visit `not <bare>`
+\* raised there: visit_UnaryOp, None.reverse().)
 RECURSIVE HasNotBare(_)
 HasNotBare(x) ==
     IF x.k = "not" THEN x.c.k = "bare" \/ HasNotBare(x.c)
     ELSE IF x.k \in {"and", "or"} THEN \E i \in 1..Len(x.cs) : HasNotBare(x.cs[i])
     ELSE FALSE
-ImplDefCrash(c, F) == "genvisit" \notin F /\ \E i \in 1..Len(c.lines) : HasNotBare(c.lines[i].c)
+ImplDefCrash(c, F) == Bug = "nogenvisit" /\ \E i \in 1..Len(c.lines) : HasNotBare(c.lines[i].c)
 ImplRejected(c, env, F) == ~ImplDefCrash(c, F) /\ \E x \in BodyAtoms(c.lines) : ImplAtomNull(env, x, F)
 \* the check of the definition or of the call raises
 ImplCrashes(c, env, F) ==
@@ -647,24 +649,14 @@ StatusReq(c, env, F) ==
     IN /\ ~ImplCrashes(c, env, F)
        /\ IF RefMustReject(c, env) THEN rej
           ELSE rej => \A x \in atoms : ImplAtomNull(env, x, F) => RefValidity(env, x) = "either"
-\*  unsupported-condition-form-not-rejected   `if a:`, `if True:`, `if sys.platform:` (any expression
-\*        without a visit_ method of ConditionEvaluator) is not reported at the definition and every
-\*        call that evaluates it raises (internal_error)
-\*  invalid-or-operand-crashes-call   an invalid condition as an operand of `or` is reported at the
-\*        definition, and a call that evaluates it raises in visit_BoolOp (:554) instead of treating
-\*        the condition as invalid (as `and`, `not` and a plain `if` do)
 \*  version-subscript-check-rejected   PEP 484's own example `sys.version_info[0] >= 3` is rejected
-StatusClassName(f) == CASE f = "genvisit" -> "unsupported-condition-form-not-rejected"
-                        [] f = "ornull" -> "invalid-or-operand-crashes-call"
-                        [] f = "veri" -> "version-subscript-check-rejected"
+StatusClassName(f) == CASE f = "veri" -> "version-subscript-check-rejected"
 StatusClass(c, env) ==
     IF StatusReq(c, env, Fixed) THEN {}
     ELSE LET Fixing == {S \in SUBSET (StatusRepairs \ Fixed) : StatusReq(c, env, S \cup Fixed)}
          IN IF Fixing = {} THEN {"viol"}
             ELSE LET S == CHOOSE S \in Fixing : \A S2 \in Fixing : Cardinality(S) <= Cardinality(S2)
                  IN {StatusClassName(f) : f \in S}
-Dev_UnsupportedConditionNotRejected(c, env) == "unsupported-condition-form-not-rejected" \in StatusClass(c, env)
-Dev_InvalidOrOperandCrashes(c, env) == "invalid-or-operand-crashes-call" \in StatusClass(c, env)
 Dev_VersionSubscriptRejected(c, env) == "version-subscript-check-rejected" \in StatusClass(c, env)
 
 \* argument kinds: the three documented predicates (DEFAULT and UNKNOWN are indistinguishable)
